@@ -104,7 +104,44 @@ def write_all_helpers(tree):
         if sum(1 for x in ast.walk(W) if isinstance(x, ast.Name) and isinstance(x.ctx, ast.Store) and x.id in (B, nv)) != 2:
             continue
         out.add(f.name)
+        if any(isinstance(x, ast.Assign) and unparse(x.targets[0]) == B and unparse(x.value) == f"memoryview({B}).cast('B')" for x in body):
+            BYTE_HELPERS.add(f.name)
     return out
+
+
+BYTE_HELPERS = set()
+_ONE_BYTE = ('np.uint8', 'np.ubyte', "'u1'", "'B'", 'np.int8', 'np.byte', "'i1'", "'b'", "'|u1'", "'S1'", 'np.bool_')
+
+
+def byte_itemed(e, defs, depth=0):
+    """True when the buffer `e` has one-byte items, so that slicing its memoryview by a byte count is exact:
+    bytes objects (x.tobytes(), bytes(..), literals, struct.pack), one-byte views, and shape-only views of those."""
+    if depth > 8:
+        return False
+    if isinstance(e, ast.Constant):
+        return isinstance(e.value, bytes)
+    if isinstance(e, ast.Name):
+        vs = defs.get(e.id)
+        return bool(vs) and all(v is not None and byte_itemed(v, defs, depth + 1) for v in vs)
+    if isinstance(e, ast.Subscript):
+        return byte_itemed(e.value, defs, depth + 1)
+    if isinstance(e, ast.Call):
+        d = dotted(e.func)
+        if d in ('bytes', 'bytearray', 'struct.pack', 'pack'):
+            return True
+        if d in ('memoryview', 'np.ascontiguousarray', 'numpy.ascontiguousarray', 'np.asarray') and len(e.args) == 1 and not e.keywords:
+            return byte_itemed(e.args[0], defs, depth + 1)
+        if isinstance(e.func, ast.Attribute):
+            a = e.func.attr
+            if a == 'tobytes':
+                return True
+            if a in ('view', 'astype', 'cast') and len(e.args) >= 1:
+                return unparse(e.args[0]) in _ONE_BYTE
+            if a == 'view' and any(k.arg == 'dtype' and unparse(k.value) in _ONE_BYTE for k in e.keywords):
+                return True
+            if a in ('reshape', 'ravel', 'flatten', 'squeeze', 'copy'):
+                return byte_itemed(e.func.value, defs, depth + 1)
+    return False
 
 
 def _ensure_contig(s):
@@ -230,6 +267,7 @@ def run(chk):
     chk.assume('the bytes asdf/blosc deliver for the payload arrays are not modelled')
     body = fn.body
     WRITE_HELPERS.clear()
+    BYTE_HELPERS.clear()
     WRITE_HELPERS.update(write_all_helpers(src.tree(PA)))
     # module-level functions that are handed the pipe but are not recognised as complete-write loops: their calls are still the writes of
     # the stream (for the framing rules), and the completeness rule R6 names them
@@ -304,6 +342,34 @@ def run(chk):
               f'{len(direct)} direct pipe.write(...) call(s) whose result is ignored (first: {unparse(direct[0])[:50] if direct else None}): sys.stdout.buffer is a raw stream under '
               '`python -u` / PYTHONUNBUFFERED, which transfers at most 0x7ffff000 bytes per write and returns the count: a column above 2 GiB is cut short after its header '
               'announced count x width bytes', node=direct[0] if direct else fn, nontrivial=False)
+    # the loop advances `buf = buf[n:]` by the BYTE count the stream returned; a memoryview is sliced in ITEMS, so the helper is exact only
+    # for one-byte items: either it casts to bytes itself, or every buffer handed to it is a bytes object / one-byte view
+    fdefs = {}
+    for n in walk_no_nested(fn):
+        if isinstance(n, ast.Assign) and len(n.targets) == 1 and isinstance(n.targets[0], ast.Name):
+            fdefs.setdefault(n.targets[0].id, []).append(n.value)
+        elif isinstance(n, ast.Name) and isinstance(n.ctx, ast.Store):
+            fdefs.setdefault(n.id, [])
+    for n in walk_no_nested(fn):
+        if isinstance(n, ast.Name) and isinstance(n.ctx, ast.Store) and not any(isinstance(p_, ast.Assign) and len(p_.targets) == 1 and p_.targets[0] is n for p_ in [getattr(n, '_parent', None)]):
+            fdefs.setdefault(n.id, []).append(None)
+    hcalls = [n for n in walk_no_nested(fn) if is_write(n) and not (isinstance(n.func, ast.Attribute))]
+    for n in hcalls:
+        hn = n.func.id if n.func.id not in PARTIALS else None
+        if hn in BYTE_HELPERS or (hn is not None and hn not in verified):
+            continue
+        if hn is None:
+            # a partial of a helper: find the helper
+            pd = [v for v in fdefs.get(n.func.id, []) if v is not None]
+            hn = pd[0].args[0].id if pd else None
+            if hn in BYTE_HELPERS:
+                continue
+        d = wdata(n)
+        okb_ = byte_itemed(d, fdefs)
+        chk.check(okb_, 'C20-R6', PA, Q, 'the complete-write loop advances in bytes: the buffer it slices has one-byte items', unparse(d)[:60],
+                  f'{hn}(pipe, {unparse(d)[:70]}): the helper drops `n` ITEMS of its memoryview after the stream took `n` BYTES; with items wider than one byte '
+                  'a short write (raw stdout under python -u, any stream doing partial writes) skips (itemsize-1)*n payload bytes: fewer bytes than count x width, '
+                  'every later header at the wrong offset', node=n)
     # ---- R2
     floops = [s for s in body if isinstance(s, ast.For) and unparse(s.iter) == 'fields' and contains(s, is_write)]
     if len(floops) != 1:
